@@ -4,7 +4,7 @@
  'functions': ['realloc', 'malloc', 'free'],
  'extract': 'units/C10/heap_extract.py',
  'clauses': 'realloc(p, len) from any state satisfying HEAP, p a live block or NULL: the block returned is 8-aligned with >= len usable bytes (and >= 8, so that it can be freed), lies inside the heap inside the arena, overlaps neither the free list nor any other live block (arbitrary ghost block); its first min(old size, new size) payload words equal the old contents (ghost word index: realloc preserves the common prefix), both when resized in place (shrink with the tail given back and coalesced, grow into the free upper neighbour - whole or split -, grow the topmost chunk by moving the break) and when moved (malloc + copy + free of the old block); HEAP is re-established and the real memory encodes exactly the derived state; every other live block keeps header and contents; live bytes change by exactly new chunk - old chunk; __allocation_counter still counts the live blocks; realloc(NULL, len) behaves as malloc(len); each path is reachable (canaries)',
- 'params': {'C10_ARENA': [128], 'NF': [0], 'NULLP': [0, 1]}, 'params_thorough': {'NF': [0, 1, 2, 3]},
+ 'params': {'C10_ARENA': [128], 'NF': [0, 1], 'NULLP': [0, 1]}, 'params_thorough': {'NF': [0, 1, 2, 3]},
  'unwindset': ['lin_realloc.0:4', 'lin_malloc.0:4', 'lin_free.0:4', 'lin_free.1:4'], 'unwind': 6,
  'complete_unwinding': 'the walks of realloc/malloc/free see at most 4 chunks (unwound 4 times, unwinding assertions); spec loops are bounded by C10_MAXN = 5',
  'kf': ['C10_malloc_never_fails', 'C10_malloc_round_wrap', 'C10_malloc_counter_limit', 'C10_realloc_zero_size', 'C10_realloc_shrink_counter'],
